@@ -192,7 +192,7 @@ def step (s : St) (opToks : List String) (impl : Option (List String)) : St × S
         | none => ({ s with m := m', implOk := false }, line, "-")
         | some (o, a) =>
           let verdict := match checkStep s.impl op o a with
-            | none => (match checkKnown s.impl op o with
+            | none => (match checkKnown s.impl op o a with
               | none => "ok"
               | some c => "FAIL:" ++ c)
             | some c => "FAIL:" ++ c
